@@ -1015,6 +1015,34 @@ def edit(rng, p):
 WS_BASES = ["annual report.doc", "a b", "Program Files", "x y z", "New  Folder"]
 
 
+def path_variants(rng, p):
+    """p with ONE step of one object path changed between a list index and the quoted key spelt the same:
+    x:y[12] / x:y.'12' / x:y[13], x:y[*] / x:y.'*' -- an index step and a key step are different steps"""
+    cands = []
+    for path, e in positions(p):
+        if e[0] != "atom" or ("k", "hashes") in e[2] or e[1] in ("ipv4-addr", "ipv6-addr", "windows-registry-key"):
+            continue
+        st = e[2]
+        for j in range(1, len(st)):
+            nxt = st[j + 1] if j + 1 < len(st) else None
+            if st[j][0] in ("i", "star") and st[j - 1][0] == "k" and (nxt is None or nxt[0] == "k"):
+                cands.append((path, e, j))
+    if not cands:
+        return []
+    path, e, j = rng.choice(cands)
+    st = list(e[2])
+    if st[j][0] == "i":
+        n = st[j][1]
+        alts = [(("i", n), "index"), (("q", str(n)), "quoted-digits-key"), (("i", n + 1), "next-index"), (("q", str(n + 1)), "other-digits-key")]
+    else:
+        alts = [(("star",), "any-index"), (("q", "*"), "quoted-star-key"), (("i", 0), "index-0")]
+    out = []
+    for s2, name in alts:
+        st2 = st[:j] + [s2] + st[j + 1:]
+        out.append((replace_at(p, path, ("atom", e[1], st2, e[3], e[4], e[5])), name))
+    return out
+
+
 def near_duplicates(rng, p, force_qualifier=False):
     """-> [(ast, name)]: p with ONE constant respelled / slightly changed: string constants that differ only in
     white space inside the quotes, in case, in an escaped character; numbers spelled 1 / 1.0 / +1; sets reordered"""
@@ -1030,6 +1058,10 @@ def near_duplicates(rng, p, force_qualifier=False):
                 (("withinf", "%d.2" % n), "point-two"), (("withinf", "%d.5" % n), "point-five"), (("withinf", "%d.50" % n), "point-five-zero"),
                 (("withinf", "%d.999" % n), "point-999"), (("withinf", "%d.001" % n), "point-001"), (("within", n + 1), "next")]
         return [(replace_at(p, path, ("qual", e[1], q2)), name) for q2, name in alts]
+    if rng.random() < 0.2:
+        pv = path_variants(rng, p)
+        if pv:
+            return pv
     atoms = [(path, e) for path, e in positions(p) if e[0] == "atom" and ("k", "hashes") not in e[2]]
     if not atoms:
         return []
